@@ -56,8 +56,17 @@ def first_board(ports):
 
 
 def contains(port, key):
+    """Could this (earlier) port "also match" the key?  Liberal, but tied to what the statement names as lookup
+    keys - a reported name, a serial-number tag, a port name: the key occurs anywhere in the hardware id or in the
+    device name, or in the nickname position of the description, or as a parenthesised port name "(COMn)".  The
+    first 11 characters of a foreign device's description are none of these."""
     low = key.lower()
-    return any(low in field.lower() for field in port)
+    device, desc, hwid = (field.lower() for field in port)
+    if low in hwid or low in device:
+        return True
+    # the nickname position of a description ("EiBotBoard,<name>" = everything after the 11-character product
+    # prefix; the library applies that offset to every description) and a parenthesised port name
+    return low in desc[len(PRODUCT) + 1:] or "(" + low in desc or low + ")" in desc
 
 
 def body(ctx, case):
@@ -235,12 +244,14 @@ def port_entry(draw, slot, family=False):
             ["n/a", "", "USB VID:PID=04D8:FD92", "USB VID:PID=04D8:000A %s" % loc])))
         tags.add("named_board")
     elif kind == "foreign":
-        which = draw(st.integers(0, 4))
+        which = draw(st.integers(0, 6))
         port = [("/dev/cu.Bluetooth-Incoming-Port", "n/a", "n/a"),
                 ("/dev/cu.usbserial-A9007%d" % slot, "FT232R USB UART", "USB VID:PID=0403:6001 SER=A9007%s %s"
                  % (name.replace(" ", ""), loc)),
                 (com, "Arduino Uno (%s)" % com, "USB VID:PID=2341:0043 SER=%s %s" % (name.replace(" ", "_"), loc)),
                 ("/dev/ttyS%d" % slot, "ttyS%d" % slot, "PNP0501"),
+                (com, "%s Serial Adapter (%s)" % (name, com), "USB VID:PID=1A86:7523 %s" % loc),
+                (com, "%sX CH340 (%s)" % (name.upper(), com), "USB VID:PID=1A86:7523 %s" % loc),
                 (com, "Standard Serial over Bluetooth link (%s)" % com, "BTHENUM\\{00001101}\\%d" % slot)][which]
         tags.add("foreign_device")
     else:
